@@ -312,13 +312,11 @@ def binCompare (s : Core) (f : Heap → Val → Val → Option Bool) : CStep :=
 /-- index checks shared by ARR_GET / ARR_SET / ARR_REMOVE: the int64 index must lie in [0, len) -/
 def idxInRange (idx : I64) (len : Nat) : Bool := 0 ≤ idx.toInt && idx.toInt < (len : Int)
 
-/-- every instruction that neither pushes nor pops a call frame; `none` for CALL,
-    CALL_INDIRECT, CLOSURE_CALL and RET.  It sees the current frame read-only. -/
-def execData (m : Module) (fr : Frame) (s : Core) (instrStart : Nat) (op : Opc) (args : List Nat) : Option CStep :=
+/-- every instruction that neither pushes nor pops a call frame (`execData` is `none` for CALL,
+    CALL_INDIRECT, CLOSURE_CALL and RET).  It sees the current frame read-only. -/
+def execData' (m : Module) (fr : Frame) (s : Core) (instrStart : Nat) (op : Opc) (args : List Nat) : CStep :=
   let arg (k : Nat) : Nat := args.getD k 0
   match op with
-  | .CALL | .CALL_INDIRECT | .CLOSURE_CALL | .RET => none
-  | _ => some <| match op with
   | .NOP | .DEBUG_LINE | .GC_SCOPE_ENTER | .GC_SCOPE_EXIT => cont s
   | .PUSH_I64 => cont (s.push (.int (i64 (arg 0))))
   | .PUSH_F64 => cont (s.push (.float (i64 (arg 0))))
@@ -680,6 +678,13 @@ def execData (m : Module) (fr : Frame) (s : Core) (instrStart : Nat) (op : Opc) 
   | .CALL | .CALL_INDIRECT | .CLOSURE_CALL | .RET => (s, .unsupported "unreachable")
   | .OPAQUE_NULL => cont (s.push (.opaque 0))
   | .OPAQUE_VALID => let (s, v) := s.pop; cont (s.push (.bool (match v with | .opaque id => id != 0 | _ => false)))
+
+def Opc.isControl : Opc → Bool
+  | .CALL | .CALL_INDIRECT | .CLOSURE_CALL | .RET => true
+  | _ => false
+
+def execData (m : Module) (fr : Frame) (s : Core) (instrStart : Nat) (op : Opc) (args : List Nat) : Option CStep :=
+  if Opc.isControl op then none else some (execData' m fr s instrStart op args)
 
 def execInstr (m : Module) (s : VmState) (instrStart : Nat) (op : Opc) (args : List Nat) : Step :=
   match execData m (s.frames.headD default) s.toCore instrStart op args with
